@@ -56,9 +56,9 @@ M("C14-R4-kb-binary", "C14", [(U, '"kb" => {\n            fixed_at = Some(humans
 G = "src/util/glob.rs"
 M("C12-R1-glob-plus-unescaped", "C12", [(G, '            "+" => "\\\\+",\n            "{" => "\\\\{",\n            "}" => "\\\\}",\n            "|" => "\\\\|",\n            "\\\\" => "\\\\\\\\",\n            _ => error_exit("Error parsing glob expression", s),',
                                           '            "+" => "+",\n            "{" => "\\\\{",\n            "}" => "\\\\}",\n            "|" => "\\\\|",\n            "\\\\" => "\\\\\\\\",\n            _ => error_exit("Error parsing glob expression", s),')], ["convert_glob_to_pattern"])
-M("C12-R1-like-underscore-any", "C12", [(G, '"_" => ".",', '"_" => ".*",')], ["convert_like_to_pattern_wildcard"])
-M("C12-R1-glob-no-end-anchor", "C12", [(G, 'format!("^(?i){}$", string)', 'format!("^(?i){}", string)', 2)], ["anchoring"])
-M("C12-R1-glob-case-sensitive", "C12", [(G, 'format!("^(?i){}$", string)', 'format!("^{}$", string)', 2)], ["anchoring"])
+M("C12-R1-like-underscore-any", "C12", [(G, '"_" => ".",', '"_" => ".*",')], ["convert_like_to_pattern"])
+M("C12-R1-glob-no-end-anchor", "C12", [(G, 'format!("^(?i){}$", string)', 'format!("^(?i){}", string)', 2)], ["convert_glob_to_pattern"])
+M("C12-R1-glob-case-sensitive", "C12", [(G, 'format!("^(?i){}$", string)', 'format!("^{}$", string)', 2)], ["convert_glob_to_pattern"])
 M("C12-R3-notlike-not-negated", "C12", [(S, "                                            self.regex_cache.insert(val, regex.clone());\n                                            return !regex.is_match(&field_value.to_string());\n                                        }\n                                        _ => error_exit(\"Incorrect LIKE expression\", val.as_str()),",
                                             "                                            self.regex_cache.insert(val, regex.clone());\n                                            return regex.is_match(&field_value.to_string());\n                                        }\n                                        _ => error_exit(\"Incorrect LIKE expression\", val.as_str()),")], ["complement_NotLike"])
 M("C12-R4-eeq-uses-glob", "C12", [(S, "Op::Eeq => val.eq(&field_value.to_string()),", "Op::Eeq => Regex::new(&convert_glob_to_pattern(&val)).map(|r| r.is_match(&field_value.to_string())).unwrap_or(false),")], ["exact_Eeq"])
